@@ -37,6 +37,11 @@ class Expression(ABC):
 
     __slots__ = ("_hash", "_degree")
 
+    # Tell NumPy to defer to Python's reflected operators, so that
+    # np.array(0.5) <= x or np.float64(2) * x build expressions / constraints
+    # instead of NumPy broadcasting over the expression object
+    __array_ufunc__ = None
+
     @abstractmethod
     def evaluate(
         self, values: Mapping[str, ArrayLike | float]
